@@ -115,7 +115,7 @@ def table_lines(I: Interner) -> List[str]:
          "T pyCt " + dl(t["pyCtypes"], CTYPES), "T pyDesc " + dl(t["pyDesc"], PYDESC),
          "T c " + dl(t["c99"], CTYPE), "T m " + dl(t["matlab"], MATLAB),
          "T js " + " ".join(f"{I(k)}:{1 if v == '\"\"' else 0}" for k, v in t["js"] if k != "string"),
-         f"T names {I('char')} {I('RTMA_MSG_HEADER')}"]
+         f"T names {I('char')} {I('RTMA_MSG_HEADER')}", f"T maxid {t['maxMessageTypes']}"]
     return L
 
 
